@@ -43,7 +43,13 @@ def run(ctx) -> None:
 
     for kind in ("add", "remove"):
         ctx.reuse("C03.tracking-rejects", c04.length_guard, kind)
+        ctx.reuse("C03.tracking-rejects", c04.frame_delta, kind)
+        ctx.reuse("C03.tracking-rejects", c04.once, kind)
     ctx.reuse("C03.step-guard", c06.multi_disp)
+    # the record addresses the cavity that was checked: the Fluent numbering of troughs follows the trough predicate
+    from . import c08
+
+    ctx.reuse("C03.tracked-amount", c08.trough_predicate)
     ctx.reuse("C03.step-guard", c06.config)
     from . import c13
 
